@@ -61,7 +61,7 @@ type c05Case struct {
 	// (threshold 64); this is how payloads above the 2 MiB frame limit (up to 8 MiB
 	// clientbound) reach the packet decoders.
 	Compressed bool `json:"compressed,omitempty"`
-	Valid    bool   `json:"valid_base,omitempty"`
+	Valid      bool `json:"valid_base,omitempty"`
 }
 
 func (c c05Case) data() []byte {
@@ -105,17 +105,17 @@ func c05Mem() (alloc, stack uint64) {
 // ---------------------------------------------------------------- running one payload
 
 type c05Outcome struct {
-	ctx        *proto.PacketContext
-	err        error
-	alloc      uint64
-	stack      uint64
-	typ        string // registered type for the id ("" = unknown id)
-	hung       bool
-	deadlocked bool
-	panicked   any
-	panicStack string
-	effProto   proto.Protocol
-	fatal      string // isolated run ended in a runtime fatal: "stack-overflow", "out-of-memory", ...
+	ctx          *proto.PacketContext
+	err          error
+	alloc        uint64
+	stack        uint64
+	typ          string // registered type for the id ("" = unknown id)
+	hung         bool
+	deadlocked   bool
+	panicked     any
+	panicStack   string
+	effProto     proto.Protocol
+	fatal        string // isolated run ended in a runtime fatal: "stack-overflow", "out-of-memory", ...
 	inconclusive bool
 }
 
